@@ -22,7 +22,8 @@ class Ref(object):
 
 def make_reference(rng, work, n_levels=None, n_leaves=None, n_genes=None,
                    cells_per_leaf=(4, 10), encoding='csr', name='ref',
-                   rich=False, forest=None, nested_siblings=False):
+                   rich=False, forest=None, nested_siblings=False,
+                   numbered=False):
     """
     labelled raw-count reference with separable clusters; rich=True: the
     root and at least one node of every other non-leaf level have two or
@@ -50,6 +51,20 @@ def make_reference(rng, work, n_levels=None, n_leaves=None, n_genes=None,
     model = gen.build_from_shape(
         forest, d, rng, level_pool=['class', 'subclass', 'cluster', 'sub'],
         share_names=False)
+    if numbered:
+        # every level numbers its own nodes 0, 1, 2 ...: the same label
+        # names unrelated nodes on different levels
+        ren = {lv: {n: str(i) for i, n in enumerate(
+            [model.nodes[lv][j] for j in rng.permutation(
+                len(model.nodes[lv]))])} for lv in model.hierarchy}
+        nodes = {lv: [ren[lv][n] for n in model.nodes[lv]]
+                 for lv in model.hierarchy}
+        parent = {}
+        for li, lv in enumerate(model.hierarchy[1:], start=1):
+            up = model.hierarchy[li - 1]
+            parent[lv] = {ren[lv][n]: ren[up][p]
+                          for n, p in model.parent[lv].items()}
+        model = gen.TaxModel(model.hierarchy, nodes, parent)
     ng = int(n_genes if n_genes is not None else rng.integers(24, 40))
     genes = gen.gene_names(rng, ng, prefix='ens')
     # each leaf: its own "on" genes; siblings share some
